@@ -47,14 +47,15 @@ def trace_section(exe, what, work, tier):
             b["_trace"] = tr
             bad.append(b)
     nev = max(0, (t.distinct or 1) - 1)
-    first = []
+    first, inst = [], 0
     with open(tr) as fh:
         for i, line in enumerate(fh):
             if i in (1, 2):
                 first.append(json.loads(line) if len(line) < 1500 else {"e": json.loads(line)["e"], "note": "long event elided"})
-            if i > 2:
-                break
-    return what, bad, nev, first
+            # one "execution" = one component instance built/driven (or one codec call for the stateless codecs)
+            if line.startswith(('{"e":"LSNew"', '{"e":"DACBuild"', '{"e":"Code"', '{"e":"BSBuild"', '{"e":"SeqBuild"', '{"e":"RPIn"', '{"e":"VB"', '{"e":"NP"')):
+                inst += 1
+    return what, bad, nev, first, inst
 
 
 def sec_class(sec):
@@ -82,8 +83,10 @@ def run(pid, tier):
     events = 0
     samples = []
     allbad = []
-    for what, bad, nev, first in res:
+    instances = 0
+    for what, bad, nev, first, inst in res:
         events += nev
+        instances += inst
         samples.append({"component": what, "first_events": first})
         allbad += [b for b in bad if b["p"] == pid]
     extra = {}
@@ -98,16 +101,69 @@ def run(pid, tier):
                   "dominant": G.rnd_set(rng, 20, 5, 30, b"", b"a" * 60 + b"bcdefghij"),
                   "fib": sorted(set(bytes([60 + k]) * (1 + (1 << min(k, 6))) + bytes([60 + k + 1]) for k in range(12))),
                   "small": [b"aa", b"ab", b"abc", b"b", b"ba"]}
+        # geometric frequencies: byte k occurs about 2^(17-k) times, so the rarest bytes get codewords longer
+        # than the 16-bit chunk of the decoding table; strings start with every byte (rare bytes at bit offset 0)
+        geo = set()
+        for k, total in enumerate([130000, 65000, 32000, 16000, 8000, 4000, 2000, 1000, 500, 250, 120, 60, 30, 15, 8, 4, 2, 1]):
+            ch = bytes([65 + k])
+            L, used = 1, 0
+            while used + L <= total and L <= 500:
+                geo.add(ch * L)
+                used += L
+                L += 1
+        rare = [bytes([65 + k]) for k in range(10, 18)]
+        for r in rare:
+            geo.add(r + b"A")
+            geo.add(b"A" + r)
+            geo.add(b"AB" + r + b"C")
+            geo.add(r + r)
+        shapes["geometric"] = sorted(geo)
         for kind in ("HTFC", "HHTFC", "HASHHF", "HASHUFFDAC"):
             for name, S in shapes.items():
-                for par in G.param_grid(kind, S, tier == "thorough")[:2]:
-                    progs += csd.obj_programs("C18", kind, par, name, S, "members", lambda h, its: G.sec_members(h, S, rng, 30))
-        bad, st = csd.campaign(progs, "plain", work, "C18dict", tmo=6)
+                pars = G.param_grid(kind, S, tier == "thorough")[:2]
+                if name == "geometric":
+                    pars = [G.P(bucket=16, overhead=25)]
+
+                def sec(h, its, S=S, name=name):
+                    o = G.sec_members(h, S, rng, 30)
+                    if name == "geometric":      # every string that contains a rare byte
+                        idx = [i + 1 for i, x in enumerate(S) if any(c >= 75 for c in x)][:80]
+                        o += ["E %d %d" % (h, i) for i in idx] + ["L %d %s" % (h, G.hx(S[i - 1])) for i in idx]
+                    return o
+                for par in pars:
+                    progs += csd.obj_programs("C18", kind, par, name, S, "members", sec)
+        bad, st = csd.campaign(progs, "plain", work, "C18dict", tmo=20)
         rel = [b for b in bad if b["p"] in ("C01", "C03") or b["ev"] in ("crash", "timeout")]
         csd.resolve_crash_sites(rel, work)
         for b in rel:
             sg = csd.signature(b)
             allbad.append({"p": "C18", "sec": "dict-" + sg["kind"], "why": "table decoding through %s: %s" % (sg["kind"], sg["why"]),
+                           "ev": sg["ev"], "id": -1, "l": b["l"], "_sig": sg, "_trace": b.get("_trace"), "_progfile": b.get("_progfile"), "_prog": b["prog"]})
+        events += st["events"]
+        extra["dictionary_programs"] = st["programs"]
+
+    if pid == "C20":
+        # second binding (DESIGN 5/C20): the grammar as the Re-Pair dictionaries store and reload it - every member
+        # of built and loaded RPDAC / HASHRPDAC / RPFC / HASHRPF / RPHTFC dictionaries must still be addressable
+        from checks import csd
+        import csdgen as G
+        rng = random.Random(vlib.seed() * 31 + 20)
+        progs = []
+        shapes = {"hi_lo": sorted([b"\x02", b"\x02\xfe", b"\x7f", b"\x80", b"\xfe", b"\xfe\x02", b"a\x80", b"a\xfe\xfe"]),
+                  "repeats": sorted([b"abababab", b"abab", b"bababa", b"aaaaaaaa", b"aaaa", b"abcabcabc", b"bcbcbc"]),
+                  "rand60": G.rnd_set(rng, 60, 1, 14, b"", b"abcde"),
+                  "fullbytes": G.rnd_set(rng, 80, 1, 6),
+                  "single": [b"zzzzzzzz"], "small": [b"aa", b"ab", b"abc", b"b", b"ba"]}
+        for kind in ("RPDAC", "HASHRPDAC", "RPFC", "HASHRPF", "RPHTFC"):
+            for name, S in shapes.items():
+                for par in G.param_grid(kind, S, False)[:1]:
+                    progs += csd.obj_programs("C20", kind, par, name, S, "members", lambda h, its: G.sec_members(h, S, rng, 30), all_loads=True)
+        bad, st = csd.campaign(progs, "plain", work, "C20dict", tmo=6)
+        rel = [b for b in bad if b["p"] in ("C01", "C03") or b["ev"] in ("crash", "timeout")]
+        csd.resolve_crash_sites(rel, work)
+        for b in rel:
+            sg = csd.signature(b)
+            allbad.append({"p": "C20", "sec": "dict-" + sg["kind"], "why": "Re-Pair grammar through %s: %s" % (sg["kind"], sg["why"]),
                            "ev": sg["ev"], "id": -1, "l": b["l"], "_sig": sg, "_trace": b.get("_trace"), "_progfile": b.get("_progfile"), "_prog": b["prog"]})
         events += st["events"]
         extra["dictionary_programs"] = st["programs"]
@@ -144,7 +200,8 @@ def run(pid, tier):
             open(os.path.join(d, "program.txt"), "w").write(csd.extract_program(b["_progfile"], b["_prog"]))
         V.violations.append(("%s: %s [%s] x%d" % (pid, b["why"], b["sec"], e["n"]), d, sig))
     shutil.rmtree(work, ignore_errors=True)
-    coverage = {"states": states, "transitions": trans, "traces_validated_against_impl": len(res) + extra.get("dictionary_programs", 0),
+    coverage = {"states": states, "transitions": trans, "traces_validated_against_impl": instances + extra.get("dictionary_programs", 0),
+                "component_instances_driven": instances,
                 "samples": samples, "evaluations": events, "distinct_nontrivial": events,
                 "rule": "every logged component call (with its inputs) is one validated event; inputs are enumerated exhaustively in the small scope stated in harness/comp/comp.cpp and sampled (seeded) beyond it",
                 "events_validated": events, "small_scope_models": models, "rejections_for_this_property": len(allbad),
@@ -170,7 +227,7 @@ def replay(pid, path):
     os.makedirs(work)
     sec = info["record"]["sec"]
     what = {"vby": "vbyte", "log": "logseq", "dac": "dacvls", "cod": "codes", "bit": "bitseq", "wt-": "wt", "rep": "repair"}[sec[:3]]
-    _w, bad, _n, _f = trace_section(exe, what, work, "quick")
+    _w, bad, _n, _f, _i = trace_section(exe, what, work, "quick")
     same = [b for b in bad if b["p"] == pid and sec_class(b["sec"]) == sec_class(sec) and b["why"] == info["record"]["why"]]
     if same:
         print("VIOLATION property=%s replay=%s" % (pid, path))
